@@ -384,6 +384,54 @@ static void pair_batch(Rng& rng) {
     }
 }
 
+//! n and k of different integer types (both positive); result type decltype(n + k)
+template <typename N, typename K>
+static void check_divceil_mixed(N n, K k, const char* tn) {
+    typedef decltype(n + k) R;
+    ++g_pairs;
+    if (n <= 0 || k <= 0) return;
+    i128 q = ((i128)n + (i128)k - 1) / (i128)k;
+    const i128 RMAX = (i128)std::numeric_limits<R>::max();
+    if (q <= RMAX) {
+        R g = tlx::div_ceil(n, k);
+        if ((i128)g != q)
+            verif::fail(std::string("C20:div_ceil<") + tn + ">", "div_ceil(" + std::to_string(n) + ", " + std::to_string(k) + ") = " + std::to_string(g) + ", definition gives " + std::to_string((long long)q));
+    }
+    if (q * (i128)k <= RMAX) {
+        R g = tlx::round_up(n, k);
+        if ((i128)g != q * (i128)k)
+            verif::fail(std::string("C20:round_up<") + tn + ">", "round_up(" + std::to_string(n) + ", " + std::to_string(k) + ") = " + std::to_string(g) + ", definition gives " + std::to_string((unsigned long long)(q * (i128)k)));
+    }
+}
+
+static void mixed_pair_batch(Rng& rng) {
+    static const uint64_t KS[] = { 1, 2, 3, 4, 7, 8, 15, 16, 255, 256, 1000, 65535, 65536, 1u << 20, 0x7FFFFFFFull, 0x80000000ull, 0xFFFFFFFFull };
+    for (int r = 0; r < 4000; ++r) {
+        uint64_t n;
+        switch (rng.below(5)) {
+        case 0: n = (1ull << (1 + rng.below(62))) + rng.below(5) - 2; break;     // around powers of two (incl. 2^32)
+        case 1: n = 0xFFFFFFFFull + rng.below(9) - 4; break;
+        case 2: n = rng.next() >> rng.below(40); break;
+        case 3: n = rng.below(100000); break;
+        default: n = (rng.next() % 4) + 0x7FFFFFFFFFFFFFF0ull; break;
+        }
+        uint64_t k = rng.coin() ? KS[rng.below(sizeof(KS) / sizeof(KS[0]))] : (rng.next() >> (32 + rng.below(30)));
+        if (!k) k = 1;
+        check_divceil_mixed<uint64_t, uint32_t>(n, (uint32_t)k, "u64,u32");
+        check_divceil_mixed<int64_t, uint32_t>((int64_t)(n >> 1), (uint32_t)k, "i64,u32");
+        check_divceil_mixed<unsigned long long, unsigned>(n, (unsigned)k, "ull,unsigned");
+        check_divceil_mixed<uint64_t, uint16_t>(n, (uint16_t)k, "u64,u16");
+        check_divceil_mixed<uint64_t, uint8_t>(n, (uint8_t)k, "u64,u8");
+        check_divceil_mixed<uint32_t, uint64_t>((uint32_t)n, k, "u32,u64");
+        check_divceil_mixed<int64_t, int>((int64_t)(n >> 1), (int)(k & 0x7FFFFFFF), "i64,int");
+        check_divceil_mixed<uint64_t, int>(n, (int)(k & 0x7FFFFFFF), "u64,int");
+        check_divceil_mixed<uint32_t, uint8_t>((uint32_t)n, (uint8_t)k, "u32,u8");
+        check_divceil_mixed<int, long long>((int)(n & 0x7FFFFFFF), (long long)(k), "int,ll");
+        check_divceil_mixed<size_t, unsigned>(n, (unsigned)k, "size_t,unsigned");
+    }
+    verif::count("mixed_type_pairs", 4000 * 11);
+}
+
 static void mode_pairs(Rng& rng, uint64_t index) {
     if (index == 0) {
         for (int n = 1; n <= 300; ++n)
@@ -401,7 +449,8 @@ static void mode_pairs(Rng& rng, uint64_t index) {
     pair_batch<int>(rng); pair_batch<unsigned>(rng);
     pair_batch<long>(rng); pair_batch<unsigned long>(rng);
     pair_batch<long long>(rng); pair_batch<unsigned long long>(rng);
-    verif::cover("pairs:random+near-max");
+    mixed_pair_batch(rng);
+    verif::cover("pairs:random+near-max+mixed-types");
 }
 
 static uint32_t ref_rol32(uint32_t x, int i) {
